@@ -6,7 +6,6 @@ import (
 	"fmt"
 	"math/big"
 
-	"github.com/nspcc-dev/neo-go/pkg/smartcontract/scparser"
 	"github.com/nspcc-dev/neo-go/pkg/vm"
 	"github.com/nspcc-dev/neo-go/pkg/vm/opcode"
 	"github.com/nspcc-dev/neo-go/pkg/vm/stackitem"
@@ -727,7 +726,7 @@ func limitsPart(s *stats) (n int, miss int) {
 // executions"): full oracle, and the run has to be the run of a fresh VM.
 func (s *stats) reuseCheck(part, name string, script []byte, base int64, budget int, w *walker, fresh *result) {
 	bounds, decoded := boundaries(script)
-	correct := scparser.IsScriptCorrect(script, nil) == nil
+	correct := s.staticOK(part, name, script, nil)
 	opts := execOpts{mark: -1, w: w}
 	if correct && decoded {
 		opts.bounds = bounds
